@@ -59,6 +59,7 @@ def op_strategy(files, generated=()):
                   st.integers(0, 3)).map(lambda p: {"k": "std", "v": p[0], "q": [p[1], p[2]] + ([p[3]] if p[1] == "stack_effect" else [])}),
         f.map(lambda p: {"k": "bc", "f": p}),
         f.map(lambda p: {"k": "stdbc", "f": p}),
+        f.map(lambda p: {"k": "labels", "f": p}),
         f.map(lambda p: {"k": "showcode", "f": p}),
         small.map(lambda v: {"k": "mdumps", "value": v}),
         st.tuples(small, st.sampled_from([0, 1])).map(lambda p: {"k": "mloads", "value": p[0], "ver": p[1]}),
